@@ -19,7 +19,7 @@ PROP = "C05"
 META = {
     "bounds": {"quick": "semantic maps 1-D 4, 2-D 2x2 and 3-D 1x2x2 with values 0..2 (signed int64 and uint8), backend in {default, cc3d, scipy}; glue run with arbitrary back-end labels up to 2^20; "
                         "two-call sequences on one approximator object across dimensionalities",
-               "thorough": "1-D 6, 2-D 2x3 and 3x3, 3-D 2x2x2"},
+               "thorough": "1-D 6 and 2-D 2x3 (values -1..2, both arrays symbolic, uint8 and int64); 2-D 3x3 and 3-D 2x2x2 with binary uint8 label maps (every foreground pattern on both sides)"},
     "stubs": ["cc3d.connected_components / scipy.ndimage.label := any labelling into exactly the connected components under the connectivity / structure / binarisation arguments actually passed (labels 1..N all used)"],
     "assumptions": ["the compiled back ends meet their documented contract (checked on every witness against an independent flood fill on the real package)",
                     "arrays larger than the bound are outside the claim"],
@@ -31,11 +31,18 @@ def cases(tier):
     shapes = [(4,), (2, 2), (1, 2, 2)] if tier == "quick" else [(6,), (2, 3), (3, 3), (2, 2, 2)]
     out = []
     for shp in shapes:
+        big = shp in ((3, 3), (2, 2, 2))
         for be in (None, "cc3d", "scipy"):
             for dt in ("uint8", "int64"):
                 if tier == "quick" and dt == "int64" and be is not None:
                     continue
-                out.append({"name": "%s_%s_%s" % ("x".join(map(str, shp)), be, dt), "what": "cc", "shape": shp, "backend": be, "dtype": dt})
+                if big and dt == "int64":
+                    continue
+                c = {"name": "%s_%s_%s" % ("x".join(map(str, shp)), be, dt), "what": "cc", "shape": shp, "backend": be, "dtype": dt}
+                if big:
+                    # 8-9 voxels: binary label maps (every foreground pattern on both sides)
+                    c.update(maxval=1)
+                out.append(c)
     out.append({"name": "glue_arbitrary_backend_labels", "what": "glue"})
     out.append({"name": "sequence_2d_then_3d", "what": "sequence", "shapes": [(2, 2), (1, 2, 2)]})
     out.append({"name": "sequence_3d_then_2d", "what": "sequence", "shapes": [(1, 2, 2), (2, 2)]})
@@ -95,12 +102,15 @@ def run_case(case):
         for s_ in shape:
             n *= s_
         lo = -1 if dt == "int64" else 0
+        hi = case.get("maxval", 2)
         pv = [z3.Int("p%d" % i) for i in range(n)]
         rv = [z3.Int("r%d" % i) for i in range(n)]
         base = []
         for v in pv + rv:
-            declare_bounds(v, lo, 2)
-            base.append(z3.And(v >= lo, v <= 2))
+            declare_bounds(v, lo, hi)
+            base.append(z3.And(v >= lo, v <= hi))
+        if case.get("fix_ref"):
+            base += [rv[0] == 1] + [v == 0 for v in rv[1:]]
 
         def decode(m):
             return {"what": "cc", "shape": list(shape), "dtype": dt, "backend": case["backend"], "pred": [jsonable(v, m) for v in pv], "ref": [jsonable(v, m) for v in rv]}
